@@ -1,1 +1,224 @@
-/- property theorems for C19 (filled in below) -/
+/-
+C19 — what is drawn is the object (LEVEL "other": matplotlib's runtime is outside any theorem).
+Theorems about the path assembly of `HyperbolicDrawing.get_polygon_arcpath` as modelled in
+`GT.Model.DrawPath`; that matplotlib's Bézier arcs stay on their circle, that `Arc` /
+`PathPatch` / collections render their data and the axes transform pipeline are NOT theorems.
+-/
+import GT.Model.DrawPath
+import Mathlib.Tactic.Ring
+import Mathlib.Tactic.Linarith
+import Mathlib.Tactic.NormNum
+
+set_option linter.unusedSectionVars false
+set_option linter.unusedVariables false
+
+namespace GT.C19
+open GT.DrawPath
+
+variable {K : Type*} [Field K] [LinearOrder K] [IsStrictOrderedRing K]
+
+/-- what the theorem assumes of one piece: it is non-empty, its first and last vertices are the
+edge's two endpoints in some order, the endpoints are at least the threshold apart, and its
+codes start with the only `MOVETO` (true of `Path.arc` and of the two-vertex straight path) -/
+structure Good (τ2 : K) (pc : Piece K) : Prop where
+  ends : (pc.verts.head? = some pc.p1 ∧ pc.verts.getLast? = some pc.p2) ∨
+         (pc.verts.head? = some pc.p2 ∧ pc.verts.getLast? = some pc.p1)
+  far : near τ2 pc.p1 pc.p2 = false
+  code0 : pc.codes.head? = some .moveto
+  nomove : pc.codes.tail.count .moveto = 0
+
+/-- consecutive pieces share endpoints: `start → … → stop` -/
+def Linked : (K × K) → List (Piece K) → (K × K) → Prop
+  | start, [], stop => start = stop
+  | start, pc :: rest, stop => pc.p1 = start ∧ Linked pc.p2 rest stop
+
+theorem near_comm (τ2 : K) (a b : K × K) : near τ2 a b = near τ2 b a := by
+  unfold near; congr 1; apply propext
+  have : (a.1 - b.1) * (a.1 - b.1) + (a.2 - b.2) * (a.2 - b.2)
+      = (b.1 - a.1) * (b.1 - a.1) + (b.2 - a.2) * (b.2 - a.2) := by ring
+  rw [this]
+
+theorem near_self (τ2 : K) (h : 0 < τ2) (a : K × K) : near τ2 a a = true := by
+  unfold near; simp [h]
+
+/-- after the reversal heuristic every good piece runs from `p1` to `p2` -/
+theorem orient_good (τ2 : K) (hτ : 0 < τ2) (pc : Piece K) (h : Good τ2 pc) :
+    ∃ l, orient τ2 pc = some l ∧ l.head? = some pc.p1 ∧ l.getLast? = some pc.p2 := by
+  rcases h.ends with ⟨h1, h2⟩ | ⟨h1, h2⟩
+  · refine ⟨pc.verts, ?_, h1, h2⟩
+    unfold orient
+    rw [h1, h2]
+    have : near τ2 pc.p2 pc.p1 = false := by rw [near_comm]; exact h.far
+    simp [h.far, this]
+  · refine ⟨pc.verts.reverse, ?_, ?_, ?_⟩
+    · unfold orient
+      rw [h1, h2]
+      simp [near_self τ2 hτ]
+    · rw [List.head?_reverse]; exact h2
+    · rw [List.getLast?_reverse]; exact h1
+
+theorem count_recode (first : Bool) (pc : Piece K) (τ2 : K) (h : Good τ2 pc) :
+    (recode first pc.codes).count .moveto = if first then 1 else 0 := by
+  have h0 := h.code0
+  have h1 := h.nomove
+  cases hc : pc.codes with
+  | nil => rw [hc] at h0; simp at h0
+  | cons c cs =>
+    rw [hc] at h0 h1
+    simp only [List.head?_cons, Option.some.injEq] at h0
+    simp only [List.tail_cons] at h1
+    subst h0
+    cases first
+    · simp [recode, h1]
+    · simp [recode, h1]
+
+theorem head?_append_of_head? {α : Type*} {l m : List α} {a : α} (h : l.head? = some a) :
+    (l ++ m).head? = some a := by
+  cases l with
+  | nil => simp at h
+  | cons x xs => simpa using h
+
+theorem getLast?_append_of_ne {α : Type*} {l m : List α} (hm : m ≠ []) :
+    (l ++ m).getLast? = m.getLast? := by
+  rw [List.getLast?_append]
+  cases hml : m.getLast? with
+  | none => exact absurd (List.getLast?_eq_none_iff.1 hml) hm
+  | some b => simp
+
+/-- main induction: the assembled vertex list is the concatenation of segments, one per edge,
+segment `i` running from `p1 i` to `p2 i`; it starts at `start`, ends at `stop`; `MOVETO` occurs
+once (in the first piece) and nowhere else -/
+theorem assembleAux_spec (τ2 : K) (hτ : 0 < τ2) :
+    ∀ (pcs : List (Piece K)) (first : Bool) (start stop : K × K),
+      (∀ pc ∈ pcs, Good τ2 pc) → Linked start pcs stop →
+      ∃ vs cs segs, assembleAux τ2 first pcs = some (vs, cs) ∧
+        vs = segs.flatten ∧
+        List.Forall₂ (fun (seg : List (K × K)) (pc : Piece K) =>
+          seg.head? = some pc.p1 ∧ seg.getLast? = some pc.p2) segs pcs ∧
+        (pcs ≠ [] → vs.head? = some start ∧ vs.getLast? = some stop) ∧
+        cs.count .moveto = (if first && !pcs.isEmpty then 1 else 0) := by
+  intro pcs
+  induction pcs with
+  | nil =>
+    intro first start stop _ _
+    exact ⟨[], [], [], rfl, rfl, List.Forall₂.nil, fun h => absurd rfl h, by simp⟩
+  | cons pc rest ih =>
+    intro first start stop hg hl
+    obtain ⟨hp1, hl'⟩ := hl
+    have hgpc := hg pc (List.mem_cons_self)
+    obtain ⟨l, hor, hlh, hll⟩ := orient_good τ2 hτ pc hgpc
+    obtain ⟨vs, cs, segs, has, hflat, hf2, hends, hcount⟩ :=
+      ih false pc.p2 stop (fun q hq => hg q (List.mem_cons_of_mem _ hq)) hl'
+    refine ⟨l ++ vs, recode first pc.codes ++ cs, l :: segs, ?_, ?_, ?_, ?_, ?_⟩
+    · simp only [assembleAux, hor, has]
+    · simp [hflat]
+    · exact List.Forall₂.cons ⟨hlh, hll⟩ hf2
+    · intro _
+      refine ⟨by rw [← hp1]; exact head?_append_of_head? hlh, ?_⟩
+      cases rest with
+      | nil =>
+        simp only [assembleAux] at has
+        have hv : vs = [] := by
+          have := Option.some.inj has
+          exact (Prod.mk.inj this).1.symm
+        have : pc.p2 = stop := hl'
+        rw [hv, List.append_nil, hll, this]
+      | cons r rs =>
+        obtain ⟨_, hlast⟩ := hends (by simp)
+        have hne : vs ≠ [] := by
+          intro h0; rw [h0] at hlast; simp at hlast
+        rw [getLast?_append_of_ne hne]; exact hlast
+    · rw [List.count_append, count_recode first pc τ2 hgpc, hcount]
+      cases first <;> simp
+
+/-- **`assemble_continuous_closed`**: for a polygon with vertices `v₀, …` whose edge pieces are
+good, the assembled path exists, has exactly one `MOVETO`, starts at `v₀`, is the concatenation
+of one segment per edge running from that edge's first to its second endpoint (so it passes
+`v₁, …, v_{k-1}` in order at the piece boundaries, continuously), and returns to `v₀` -/
+theorem assemble_continuous_closed (τ2 : K) (hτ : 0 < τ2) (pcs : List (Piece K)) (v0 : K × K)
+    (hne : pcs ≠ []) (hg : ∀ pc ∈ pcs, Good τ2 pc) (hl : Linked v0 pcs v0) :
+    ∃ vs cs segs, assemble τ2 pcs = some (vs, cs) ∧
+      cs.count .moveto = 1 ∧ vs.head? = some v0 ∧ vs.getLast? = some v0 ∧
+      vs = segs.flatten ∧
+      List.Forall₂ (fun (seg : List (K × K)) (pc : Piece K) =>
+        seg.head? = some pc.p1 ∧ seg.getLast? = some pc.p2) segs pcs := by
+  obtain ⟨vs, cs, segs, has, hflat, hf2, hends, hcount⟩ :=
+    assembleAux_spec τ2 hτ pcs true v0 v0 hg hl
+  obtain ⟨hh, hlast⟩ := hends hne
+  refine ⟨vs, cs, segs, has, ?_, hh, hlast, hflat, hf2⟩
+  rw [hcount]
+  cases pcs with
+  | nil => exact absurd rfl hne
+  | cons _ _ => simp
+
+/-- the first code of the assembled path is the `MOVETO` -/
+theorem assemble_starts_with_moveto (τ2 : K) (hτ : 0 < τ2) (pc : Piece K) (rest : List (Piece K))
+    (hg : ∀ q ∈ pc :: rest, Good τ2 q) (v0 : K × K) (hl : Linked v0 (pc :: rest) v0) :
+    ∃ vs cs, assemble τ2 (pc :: rest) = some (vs, cs) ∧ cs.head? = some .moveto := by
+  obtain ⟨vs, cs, segs, has, _, _, _, _⟩ := assembleAux_spec τ2 hτ (pc :: rest) true v0 v0 hg hl
+  refine ⟨vs, cs, has, ?_⟩
+  simp only [assembleAux] at has
+  obtain ⟨l, hor, _, _⟩ := orient_good τ2 hτ pc (hg pc List.mem_cons_self)
+  rw [hor] at has
+  cases hr : assembleAux τ2 false rest with
+  | none => rw [hr] at has; simp at has
+  | some p =>
+    rw [hr] at has
+    obtain ⟨vs', cs'⟩ := p
+    simp only [Option.some.injEq, Prod.mk.injEq] at has
+    rw [← has.2]
+    have h0 := (hg pc List.mem_cons_self).code0
+    simp only [recode, if_true]
+    exact head?_append_of_head? h0
+
+/-- the straight piece substituted above the radius threshold (or for a NaN radius) is good as
+soon as its two vertices are the edge's endpoints — Poincaré disk; in the half-plane see
+`vertical_segment_finite` -/
+theorem straight_piece_good (τ2 thr : K) (r : Option K) (arc : List (K × K) × List Code)
+    (p1 p2 : K × K) (hfar : near τ2 p1 p2 = false)
+    (hr : ∀ x, r = some x → ¬ x < thr) :
+    Good τ2 (edgePiece thr r arc (p1, p2) p1 p2) := by
+  have : edgePiece thr r arc (p1, p2) p1 p2 = ⟨[p1, p2], [.moveto, .lineto], p1, p2⟩ := by
+    unfold edgePiece
+    cases r with
+    | none => rfl
+    | some x => simp [hr x rfl]
+  rw [this]
+  exact ⟨Or.inl ⟨rfl, rfl⟩, hfar, rfl, by simp⟩
+
+/-- half-plane: for two finite on-screen endpoints `get_vertical_segment` keeps the first
+endpoint and moves the second one horizontally above it (the deliberate straight-segment
+approximation: the piece ends at `(x₀, y₁)`, not at `(x₁, y₁)`) -/
+theorem vertical_segment_finite (left right up x0 y0 x1 y1 : K)
+    (h0 : left ≤ x0 ∧ x0 ≤ right) (h1 : left ≤ x1 ∧ x1 ≤ right) :
+    verticalSegment left right up (some x0, y0) (some x1, y1) = ((some x0, y0), (some x0, y1)) := by
+  unfold verticalSegment
+  simp [not_lt.2 h0.1, not_lt.2 h0.2, not_lt.2 h1.1, not_lt.2 h1.2]
+
+/-- … and with the second endpoint at infinity (NaN) the segment goes straight up off-screen -/
+theorem vertical_segment_infinite (left right up x0 y0 y1 : K) (h0 : left ≤ x0 ∧ x0 ≤ right) :
+    verticalSegment left right up (some x0, y0) (none, y1) = ((some x0, y0), (some x0, up)) ∧
+    verticalSegment left right up (none, y1) (some x0, y0) = ((some x0, y0), (some x0, up)) := by
+  unfold verticalSegment
+  simp [not_lt.2 h0.1, not_lt.2 h0.2]
+
+/-- objects of the wrong dimension are rejected -/
+theorem dimension_guard (d : Nat) : (preprocess d = .ok ()) ↔ d = 2 := by
+  unfold preprocess
+  by_cases h : d = 2
+  · simp only [h, ne_eq, not_true_eq_false, if_false, iff_true]; rfl
+  · simp only [ne_eq, h, not_false_eq_true, if_true, iff_false]
+    intro h'; cases h'
+
+/-! ## non-vacuity: a triangle whose second piece comes out reversed -/
+
+example : ∃ vs cs, assemble (1 / 100000000 : ℚ)
+    [⟨[(0, 0), (1, 1), (2, 0)], [.moveto, .curve4, .curve4], (0, 0), (2, 0)⟩,
+     ⟨[(1, 3), (2, 2), (2, 0)], [.moveto, .curve4, .curve4], (2, 0), (1, 3)⟩,
+     ⟨[(1, 3), (0, 0)], [.moveto, .lineto], (1, 3), (0, 0)⟩] = some (vs, cs) ∧
+    vs = [(0, 0), (1, 1), (2, 0), (2, 0), (2, 2), (1, 3), (1, 3), (0, 0)] ∧
+    cs = [.moveto, .curve4, .curve4, .lineto, .curve4, .curve4, .lineto, .lineto] := by
+  refine ⟨_, _, ?_, rfl, rfl⟩
+  decide +kernel
+
+end GT.C19
